@@ -1,3 +1,5 @@
 import TxV.Util.AuditCmd
 import TxV.Props.C16
+import TxV.Props.C16b
 #txv_audit TxV.Props.C16
+#txv_audit TxV.Props.C16b
